@@ -1,3 +1,4 @@
+CONSTANT Mechanism = "native"
 CONSTANTS LoopTargetsSupported = TRUE  WithRewritten = TRUE  FallOffRewritten = TRUE
 INIT InitX
 NEXT Next
